@@ -30,9 +30,34 @@ pub mod io {
 
 pub struct Bytes { pub v: Vec<u8> }
 impl View for Bytes { type V = Seq<u8>; closed spec fn view(&self) -> Seq<u8> { self.v@ } }
+impl Bytes {
+    pub fn len(&self) -> (r: usize) ensures r == self@.len() { self.v.len() }
+    pub fn is_empty(&self) -> (r: bool) ensures r == (self@.len() == 0) { self.v.len() == 0 }
+}
+// the write half of a transport (tokio AsyncWriteExt): `sent` = every byte handed to the peer so far
+pub struct WriteHalf { pub sent: Ghost<Seq<u8>> }
+impl WriteHalf {
+    // write_all: all of the buffer, or an error (after which nothing is claimed)
+    #[verifier::external_body]
+    pub fn write_all(&mut self, data: &Bytes) -> (r: Result<(), IoError>)
+        ensures r is Ok ==> final(self).sent@ == old(self).sent@ + data@
+    { unimplemented!() }
+    // write: SOME prefix of the buffer (possibly not all of it), its length is returned
+    #[verifier::external_body]
+    pub fn write(&mut self, data: &Bytes) -> (r: Result<usize, IoError>)
+        ensures r matches Ok(n) ==> n <= data@.len() && final(self).sent@ == old(self).sent@ + data@.take(n as int)
+    { unimplemented!() }
+    #[verifier::external_body]
+    pub fn flush(&mut self) -> (r: Result<(), IoError>) ensures final(self).sent@ == old(self).sent@ { unimplemented!() }
+}
 pub struct BytesMut { pub v: Vec<u8> }
 impl View for BytesMut { type V = Seq<u8>; closed spec fn view(&self) -> Seq<u8> { self.v@ } }
 impl BytesMut {
+    // a fresh, empty buffer
+    #[verifier::external_body]
+    pub fn new() -> (r: BytesMut) ensures r@ == Seq::<u8>::empty() { unimplemented!() }
+    #[verifier::external_body]
+    pub fn with_capacity(n: usize) -> (r: BytesMut) ensures r@ == Seq::<u8>::empty() { unimplemented!() }
     #[verifier::external_body]
     pub fn len(&self) -> (n: usize) ensures n == self@.len() { unimplemented!() }
     // bytes::BytesMut::split_to panics if at > len
@@ -117,6 +142,15 @@ pub open spec fn recv_post(obuf: Seq<u8>, opos: int, stream: Seq<u8>, nbuf: Seq<
 
 pub mod tls {
 use super::*;
+pub struct Sender { pub write: WriteHalf }
+impl Sender {
+//@extract id=tls_send file=netconf/src/transport/tls.rs impl=/impl SendHandle for Sender/ fn=send rules=R1,R2,R3,R17 vis=pub
+//@contract
+        // C06, sending side: a message (which ends with its delimiter, see ClientMsg::to_xml) is handed to the peer completely and
+        // exactly once, or the call fails
+        ensures res is Ok ==> final(self).write.sent@ == old(self).write.sent@ + data@,            // OBL:C06.send.whole_message_is_written
+//@end
+}
 pub struct Receiver { pub read: ReadHalf, pub buf: BytesMut, pub finder: Finder }
 impl Receiver {
     pub open spec fn wf(&self) -> bool { recv_wf(self.read.pos@, self.read.stream@, self.buf@) }
@@ -169,6 +203,13 @@ impl Receiver {
 
 pub mod junos_local {
 use super::*;
+pub struct Sender { pub write: WriteHalf }
+impl Sender {
+//@extract id=junos_local_send file=netconf/src/transport/junos_local.rs impl=/impl SendHandle for Sender/ fn=send rules=R1,R2,R3,R17 vis=pub
+//@contract
+        ensures res is Ok ==> final(self).write.sent@ == old(self).write.sent@ + data@,            // OBL:C06.send.whole_message_is_written
+//@end
+}
 pub struct Receiver { pub read: ChildStdout, pub buf: BytesMut, pub finder: Finder }
 impl Receiver {
     pub open spec fn wf(&self) -> bool { recv_wf(self.read.pos@, self.read.stream@, self.buf@) }
